@@ -33,8 +33,19 @@ VLocate(r) ==
       badloc == {k \in DOMAIN r.loc : \E v \in DOMAIN r.loc[k] : r.loc[k][v] # want(k)}
       badin  == {k \in DOMAIN r.inring : r.inring[k] # (want(k) # "exterior")}
       badon  == {k \in DOMAIN r.online : r.online[k] # OnLine(QPt(r, k), ring)}
-      badsg  == {k \in DOMAIN r.onseg1 : r.onseg1[k] # OnSeg(QPt(r, k), ring[1], ring[2])} IN
+      badsg  == {k \in DOMAIN r.onseg1 : r.onseg1[k] # OnSeg(QPt(r, k), ring[1], ring[2])}
+      \* the same predicates on the reversed / duplicated ring, with extra ordinates, on the open linestring; "panic" equals neither
+      BoolS(b) == IF b THEN "true" ELSE "false"
+      open == SubSeq(ring, 1, Len(ring) - 1)
+      badinv == {k \in DOMAIN r.inringv : \E v \in DOMAIN r.inringv[k] : r.inringv[k][v] # BoolS(want(k) # "exterior")}
+      badonv == {k \in DOMAIN r.onlinev : \/ r.onlinev[k][1] # BoolS(OnLine(QPt(r, k), ring))
+                                            \/ r.onlinev[k][2] # BoolS(OnLine(QPt(r, k), ring))
+                                            \/ r.onlinev[k][3] # BoolS(OnLine(QPt(r, k), open))}
+      badsgv == {k \in DOMAIN r.onsegv : \E v \in DOMAIN r.onsegv[k] : r.onsegv[k][v] # BoolS(OnSeg(QPt(r, k), ring[1], ring[2]))} IN
   IF Len(r.loc) # NQ(r) THEN Bad("locate|short", 0)
+  ELSE IF badinv # {} THEN Bad("locate|IsPointInRing|variant", FirstOf(badinv))
+  ELSE IF badonv # {} THEN Bad("locate|IsOnLine|variant", FirstOf(badonv))
+  ELSE IF badsgv # {} THEN Bad("locate|PointIntersectsLine|variant", FirstOf(badsgv))
   ELSE IF badloc # {} THEN
          LET k == FirstOf(badloc)  v == FirstOf({v \in DOMAIN r.loc[k] : r.loc[k][v] # want(k)}) IN
          Bad("locate|ring|variant" \o IntS(v) \o "|got=" \o r.loc[k][v] \o "|want=" \o want(k), k)
